@@ -1,4 +1,5 @@
 CONSTANTS
+  Sites <- SiteTable
   BITS = 8
 SPECIFICATION Spec
 INVARIANT ITypeOK
